@@ -1,4 +1,4 @@
-HOOK_COMMITS = ["358b29f", "6cd9f5c", "5546540", "d5e2d64", "cc0f95b"]
+HOOK_COMMITS = ["358b29f", "6cd9f5c", "5546540", "d5e2d64", "cc0f95b", "723b812"]
 FIX_COMMITS = ["923416a", "a6cf66b", "1830814", "c137568", "96c0ea9"]
 
 NOTES = ("All checks are ./check <id> --tier quick|thorough (runner/vrunner.py). Every engine is rebuilt "
@@ -132,13 +132,13 @@ CHECKS["C07"] = {
 CHECKS["C08"] = {
     "engine": "sched (loom)", "category": "model_checking", "design_ref": "DESIGN.md 3/C08",
     "technique": "stateless model checking of the real code under a controlled scheduler (loom): exhaustive order assignments plus all interleavings of join/kernel-entry scheduling points under a preemption bound, Rust and C",
-    "text": "Hasher::update_with_join runs with a scripted Join (hook H3) and blake3_hasher_update_tbb with a scripted parallel_invoke (the real c/blake3_tbb.cpp compiled against a stand-in header), on inputs whose split tree has 1..7 internal nodes at every SIMD level, from empty and non-empty hashers. (1) Every assignment of left-first/right-first to the internal nodes is executed. (2) For every choice of up to two (quick) / three (thorough) nodes run concurrently on loom threads, every interleaving of the scheduling points - join entry and exit, every kernel entry (hook H2; blake3.c's kernel calls are redirected to harness functions) - is executed under preemption bound 2 / 3 (unbounded for the smallest scenarios). After every execution the complete hasher state and 64 output bytes must equal single-threaded update, which is tied to the spec. update_rayon itself (the real RayonJoin, pools of 1, 2 and 4 threads) is additionally executed as a transition from every state of the C02 Hasher exploration and must leave exactly the state update leaves. Supporting, labelled as sampling: real rayon pools of 1..16 threads on large inputs through update_rayon / update_mmap_rayon, and a free-running ThreadSanitizer build of the C parallel path.",
+    "text": "Hasher::update_with_join runs with a scripted Join (hook H3) and blake3_hasher_update_tbb with a scripted parallel_invoke (the real c/blake3_tbb.cpp compiled against a stand-in header), on inputs whose split tree has 1..7 internal nodes at every SIMD level, from empty and non-empty hashers. (1) Every assignment of left-first/right-first to the internal nodes is executed. (2) For every choice of up to two (quick) / three (thorough) nodes run concurrently on loom threads, every interleaving of the scheduling points - join entry and exit, every kernel entry and every kernel return (hook H2; blake3.c's kernel calls are redirected to harness functions) - is executed by iterative context bounding: completely with at most 1 preemption, then 2 (3 in the thorough tier) and without a bound for models that are small enough at the previous bound (all models in the thorough tier, subject to reported wall-clock budgets). After every execution the complete hasher state and 64 output bytes must equal single-threaded update, which is tied to the spec. update_rayon itself (the real RayonJoin, pools of 1, 2 and 4 threads) is additionally executed as a transition from every state of the C02 Hasher exploration and must leave exactly the state update leaves. Supporting, labelled as sampling: real rayon pools of 1..16 threads on large inputs through update_rayon / update_mmap_rayon, and a free-running ThreadSanitizer build of the C parallel path.",
     "note": "Interleavings inside one kernel call and weak-memory effects on plain accesses are outside the scheduler (race-detector passes only). oneTBB itself is not installed; its parallel_invoke is a stand-in. loom MAX_THREADS=5.",
 }
 CHECKS["C18"] = {
     "engine": "sched (loom)", "category": "model_checking", "design_ref": "DESIGN.md 3/C18",
     "technique": "stateless model checking under a controlled scheduler (loom) of threads using disjoint instances, with scheduling points at kernel entries and at the C feature-cache load/store; plus deviation-bounded enumeration of Platform::detect() answers",
-    "text": "Two and three loom threads each run a complete operation sequence (incremental hashing, update_reader / io::copy, extended output with seeks across block counter 2^32, clones, one-shot calls, repeated key derivation with per-thread context strings and keys, hazmat merges; C: init/init_keyed/init_derive_key_raw, update, finalize_seek) on their own instances; all interleavings of the scheduling points under preemption bound 2 (3 for pairs in the thorough tier) are executed and every thread's results must equal the results of the same sequence run alone (= the spec). On the C side every execution starts with g_cpu_features = UNDEFINED and the cache's load and store are scheduling points (hook H5), so detection itself races, and the final cache value is checked. The Rust side runs on a copy of the crate's source, regenerated from /repo on every build (runner/instrument.py), in which core::sync / std::sync atomics, Mutex, RwLock, Once, OnceLock, LazyLock operations written in the crate's own source are scheduling points too, statics behind them are put back to their initial bytes before every execution, and thread_local! values are per virtual thread (on the unchanged tree the crate performs no such operation: counter crate_sync_ops_as_scheduling_points = 0). The cpufeatures caches are over-approximated: every Platform::detect() call may answer any level up to the best one, all answer sequences with at most two deviations. Sampling, labelled so: 16 real threads released together as the first calls of fresh processes.",
+    "text": "Two and three loom threads each run a complete operation sequence (incremental hashing, update_reader / io::copy, extended output with seeks across block counter 2^32, clones, one-shot calls, repeated key derivation with per-thread context strings and keys, hazmat merges; C: init/init_keyed/init_derive_key_raw, update, finalize_seek) on their own instances; all interleavings of the scheduling points (kernel entries and returns, the C feature-cache load/store, every core::sync / std::sync operation in the crate's source) are executed by iterative context bounding - every model completely with at most 1 preemption, then with 2 (3 for pairs in the thorough tier) for models of at most 110 schedules at bound 1 (all models in the thorough tier) - and every thread's results must equal the results of the same sequence run alone (= the spec). On the C side every execution starts with g_cpu_features = UNDEFINED and the cache's load and store are scheduling points (hook H5), so detection itself races, and the final cache value is checked. The Rust side runs on a copy of the crate's source, regenerated from /repo on every build (runner/instrument.py), in which core::sync / std::sync atomics, Mutex, RwLock, Once, OnceLock, LazyLock operations written in the crate's own source are scheduling points too, statics behind them are put back to their initial bytes before every execution, and thread_local! values are per virtual thread (on the unchanged tree the crate performs no such operation: counter crate_sync_ops_as_scheduling_points = 0). The cpufeatures caches are over-approximated: every Platform::detect() call may answer any level up to the best one, all answer sequences with at most two deviations. Sampling, labelled so: 16 real threads released together as the first calls of fresh processes.",
     "note": "cpufeatures' own atomics are third-party code loom does not see. Interleavings finer than the scheduling points are not explored.",
 }
 
